@@ -25,7 +25,7 @@ from ..common import Result, Violation, f2h, f2q, h2f, q2frac
 from . import c02
 
 META = dict(
-    level='Lean theorems: result wiring of the three run() methods, of get_modified_ts and of node_posteriors/mutation_posteriors regenerated from the source and re-proved each run (metadata arrays are the very moment arrays the posteriors are built from; inside_outside summarises the grid after to_probabilities; maximization passes no variance); for the executable model of set_time_metadata/get_modified_ts, all inputs: whenever metadata is written, decoding node row i gives (mean[i], var[i]) and the multiset of (mutation identity, (mn, vr)) equals the input mutations paired with the mutation arrays (codec round trip as hypothesis); no variance => nothing written; to_probabilities rows sum to one and stay non-negative, mean_var = mean/variance of the normalised row (= second moment minus squared mean), fixed nodes -> (exact time, 0), over any ordered field. Models executed against the real functions (Rat exact, Float) and against real date() outputs. Partial: mutation identity theorem stated for phased results; rounding of numpy reductions only by tolerance.',
+    level='Lean theorems: result wiring of the three run() methods, of get_modified_ts and of node_posteriors/mutation_posteriors regenerated from the source and re-proved each run (metadata arrays are the very moment arrays the posteriors are built from; inside_outside summarises the grid after to_probabilities; maximization passes no variance); for the executable model of set_time_metadata/get_modified_ts, all inputs: whenever metadata is written, decoding node row i gives (mean[i], var[i]) and the multiset of (mutation identity, (mn, vr)) equals the input mutations paired with the mutation arrays (codec round trip as hypothesis); no variance => nothing written; to_probabilities rows sum to one and stay non-negative, mean_var = mean/variance of the normalised row (= second moment minus squared mean), fixed nodes -> (exact time, 0), over any ordered field. Models executed against the real functions (Rat exact, Float) and against real date() outputs. The mutation identity theorem holds for any mutation_node array (phased or not). Rounding of numpy reductions only by tolerance.',
     note='Lean kernel + {propext, Classical.choice, Quot.sound}; wiring translator (ast); sampled correspondence; JSON float round trip checked bitwise on every run; exact-arithmetic theorems',
     technique='regenerated wiring + row-wise refinement theorem + model executed at Rat/Float against real posteriors',
     ref='§3 C04',
